@@ -76,6 +76,21 @@
 //!
 //! [xcp]: https://crates.io/crates/xcp/
 
+/// Verification hook (compiled only with `--cfg tarka_xcp_verif`): a
+/// harmless `stat` of a non-existent marker path that gives an
+/// external supervisor a visible point between two in-process
+/// events. Expands to nothing otherwise.
+#[cfg(tarka_xcp_verif)]
+macro_rules! verif_point {
+    ($tag:literal) => {
+        let _ = std::fs::metadata(concat!("/.xcp-verif-point/", $tag));
+    };
+}
+#[cfg(not(tarka_xcp_verif))]
+macro_rules! verif_point {
+    ($tag:literal) => {};
+}
+
 pub mod config;
 pub mod drivers;
 pub mod errors;
